@@ -36,12 +36,15 @@ func (p c12Prov) Shutdown(context.Context) error { return nil }
 var c12Table = map[string]string{
 	"K": "v", "N": "42", "B": "true", "F": "1.5", "R": "${aa:K}", "E": "a$$b", "C": "${aa:C}", "C2": "x${aa:C3}", "C3": "${aa:C2}y", "P": "K", "D": "$",
 	"M": "{m: 1, n: [1, two]}", "L": "[1, two]", "Z": "null", "Z2": "~", "RN": "${aa:N}", "NW": " 42\n", "MR": "{m: \"${aa:N}\", l: [\"${aa:K}\"]}",
+	// structured values with three and four references in separate leaves (the original text is one string holding them all)
+	"MR3": "{a: \"${aa:K}\", b: \"${aa:N}\", c: \"${aa:B}\"}", "LR4": "[\"${aa:K}\", \"${aa:N}\", \"${aa:K}\", \"${aa:B}\"]",
 }
 
 // what the typed value of each key must be when the reference is the whole value
 var c12Typed = map[string]any{
 	"K": "v", "N": 42, "B": true, "F": 1.5, "R": "v", "E": "a$b", "P": "K", "D": "$",
 	"M": map[string]any{"m": 1, "n": []any{1, "two"}}, "L": []any{1, "two"}, "Z": nil, "Z2": nil, "RN": 42, "NW": 42, "MR": map[string]any{"m": 42, "l": []any{"v"}},
+	"MR3": map[string]any{"a": "v", "b": 42, "c": true}, "LR4": []any{"v", 42, "v", true},
 }
 
 func c12Resolver(sources []map[string]any, defScheme bool) (*Resolver, error) {
@@ -452,11 +455,10 @@ func c12TypedCheck(key string, def bool) (string, string) {
 	if norm(got) != norm(want) {
 		return "typed-value-mismatch", fmt.Sprintf("%s as a whole value: got %s want %s", s, norm(got), norm(want))
 	}
-	switch want.(type) {
-	case map[string]any, []any:
-	default:
+	{
 		// (null is a YAML scalar type too: "null" / "~" into a string field stay that text)
-		// scalar assigned to a string field keeps its original text
+		// a value assigned to a string field keeps its original text, "itself subject to the same expansion" - structured
+		// values (maps, lists) included: every reference inside the text is expanded, however many there are
 		orig, _ := c12Ref(c12Table[key], def, map[string]bool{}, true)
 		if strErr != nil || strField != orig {
 			return "typed-string-target-mismatch", fmt.Sprintf("%s into a string field: got %q (err=%v) want original text %q", s, strField, strErr, orig)
